@@ -5,7 +5,14 @@
  * compares), so that yields fall INSIDE them; the completion callback is an
  * indirect call and runs atomically. */
 #include "vp_harness.h"
+#ifndef SCEN
+#define SCEN 1
+#endif
+#define SCEN_DC (SCEN >= 5)
 #include "parsec/class/parsec_future.c"
+#if SCEN_DC
+#include "parsec/class/parsec_datacopy_future.c"
+#endif
 int parsec_debug_colorize, parsec_debug_rank;
 void parsec_output_verbose(int level, int id, const char *fmt, ...) { (void)level; (void)id; (void)fmt; }
 
@@ -27,12 +34,27 @@ static void cb(parsec_base_future_t *f, ...)
     cb_saw_count = CF.count;
 }
 
+#if SCEN_DC
+static parsec_datacopy_future_t DF;
+static int sync_mode, dc_cb_count; static void *r0, *r1, *r2;
+static void dc_fulfill(parsec_base_future_t *f, ...)
+{   /* the reshape callback: either completes at once, or leaves completion to a later set */
+    dc_cb_count++;
+    if(sync_mode) parsec_datacopy_future_set(f, &d1);
+}
+#endif
 void setup(void)
 {
     parsec_base_future_construct(&F);
     F.status = PARSEC_DATA_FUTURE_STATUS_INIT; F.cb_fulfill = cb;       /* = parsec_base_future_init(&F, cb) */
     parsec_countable_future_construct((parsec_base_future_t*)&CF);
     CF.super.status = PARSEC_DATA_FUTURE_STATUS_INIT; CF.super.cb_fulfill = cb;
+#if SCEN_DC
+    parsec_datacopy_future_construct((parsec_base_future_t*)&DF);
+    /* = parsec_datacopy_future_init(&DF, dc_fulfill, NULL, match, NULL, NULL) */
+    DF.super.status = PARSEC_DATA_FUTURE_STATUS_INIT; DF.super.cb_fulfill = dc_fulfill; DF.nested_enable = 1; DF.nested_futures = NULL;
+    sync_mode = IN_BOOL();
+#endif
 #if SCEN == 3
     CF.count = 2;                                                        /* = parsec_countable_future_init(&CF, cb, 2) */
 #elif SCEN == 4
@@ -51,6 +73,16 @@ void thread1(void){ if(parsec_base_future_is_ready(&F)) { seen_ready = 1; seen_d
 void thread0(void){ parsec_countable_future_set((parsec_base_future_t*)&CF, &d1); __sync_fetch_and_add(&nsets_done, 1); }
 void thread1(void){ parsec_countable_future_set((parsec_base_future_t*)&CF, &d2); __sync_fetch_and_add(&nsets_done, 1); }
 void thread2(void){ if(parsec_base_future_is_ready((parsec_base_future_t*)&CF)) { seen_ready = 1; seen_count = CF.count; } }
+#elif SCEN == 5 /* datacopy future: two concurrent triggers + (async mode) a late completion */
+void thread0(void){ r0 = parsec_datacopy_future_get_or_trigger_internal((parsec_base_future_t*)&DF, NULL, NULL); }
+void thread1(void){ r1 = parsec_datacopy_future_get_or_trigger_internal((parsec_base_future_t*)&DF, NULL, NULL); }
+void thread2(void){
+    if(!sync_mode) {   /* the asynchronous completion arrives once the fulfilment has been triggered */
+        while(!(DF.super.status & PARSEC_DATA_FUTURE_STATUS_TRIGGERED)) ;
+        parsec_datacopy_future_set((parsec_base_future_t*)&DF, &d1);
+    }
+    r2 = parsec_datacopy_future_get_or_trigger_internal((parsec_base_future_t*)&DF, NULL, NULL);
+}
 #endif
 
 void check(void)
@@ -79,6 +111,15 @@ void check(void)
     VASSERTM(!seen_ready || seen_count == 0, "ready observed only after count sets");
     if(seen_ready) VWITNESS("poller saw ready");
     if(!seen_ready) VWITNESS("poller too early");
+#elif SCEN == 5
+    VASSERTM(dc_cb_count == 1, "fulfilment of a data-copy future triggered exactly once under concurrent get_or_trigger");
+    VASSERTM((r0 == NULL || r0 == &d1) && (r1 == NULL || r1 == &d1) && (r2 == NULL || r2 == &d1), "a non-NULL result is the delivered copy");
+    VASSERTM(DF.super.tracked_data == &d1 && (DF.super.status & PARSEC_DATA_FUTURE_STATUS_COMPLETED), "completed with the single value");
+    VASSERTM(!sync_mode || (r0 == &d1 && r1 == &d1 && r2 == &d1), "synchronous fulfilment: every caller gets the copy");
+    VASSERTM(DF.super.future_lock == 0, "future lock released");
+    if(!sync_mode && r0 == NULL && r1 == NULL) VWITNESS("async: both early callers got NULL");
+    if(!sync_mode && (r0 != NULL || r1 != NULL)) VWITNESS("async: a caller arrived after completion");
+    if(sync_mode) VWITNESS("sync");
 #elif SCEN == 4
     VASSERTM(cb_count == 0 && !(CF.super.status & PARSEC_DATA_FUTURE_STATUS_COMPLETED) && !seen_ready, "not ready before count sets");
     VASSERTM(CF.count == 1, "count decremented exactly twice");
